@@ -16,7 +16,7 @@ RULE = ("Exhaustive: every effectful built-in (fs::read_file, read_file_bytes, w
         "position classes: 7 where the call's value is used (top level, after harmless code, inside a function, "
         "inside a closure passed to map, inside a method, as an argument of another call, inside a function called "
         "from a test) and 11 where it is discarded (a statement followed by other code at top level, in a function / "
-        "closure / method body, in an if / for / while / match-arm / let-block body, in a function called from a test, "
+        "closure / method body, in an if / for / while / match-arm / else body, in a function called from a test, "
         "directly in a test body) x {playground-run, sandboxed-test}; random sequences of several calls, each used or "
         "discarded. Environment oracle: a scratch directory with canary files and canary "
         "executables first on PATH (each drops a marker when started); its tree (names and content hashes) must be "
@@ -69,7 +69,7 @@ EFFECTS = [
 POSITIONS = ["top", "after-code", "in-fun", "in-closure", "in-method", "as-arg", "in-test",
              # positions where the call's value is discarded (a statement followed by other code)
              "top-stmt", "stmt-in-fun", "stmt-in-closure", "stmt-in-method", "stmt-in-if", "stmt-in-for",
-             "stmt-in-while", "stmt-in-match", "stmt-in-block", "stmt-in-test", "stmt-in-test-body"]
+             "stmt-in-while", "stmt-in-match", "stmt-in-else", "stmt-in-test", "stmt-in-test-body"]
 MARK = "REACHED-MARKER"
 
 
@@ -109,8 +109,8 @@ def program(call: str, pos: str):
         return IMPORTS + f"fun doit(): Int {{\n  let n = 0\n  while n < 2 {{\n    n += 1\n    {reach}    {call}\n    {after}  }}\n  n\n}}\nprintln(string_repr(doit()))\n", None
     if pos == "stmt-in-match":
         return IMPORTS + f"fun doit(o: Option<Int>): Int {{\n  match o {{\n    Some(v) => {{\n      {reach}      {call}\n      {after}      v\n    }}\n    None => 0\n  }}\n}}\nprintln(string_repr(doit(Some(1))))\n", None
-    if pos == "stmt-in-block":
-        return IMPORTS + f"fun doit(): Int {{\n  let b = {{\n    {reach}    {call}\n    2\n  }}\n  b\n}}\nprintln(string_repr(doit()))\n", None
+    if pos == "stmt-in-else":
+        return IMPORTS + f"fun doit(c: Bool): Int {{\n  if c {{\n    0\n  }} else {{\n    {reach}    {call}\n    2\n  }}\n}}\nprintln(string_repr(doit(False)))\n", None
     if pos == "stmt-in-test":
         src = IMPORTS + f"fun target(): Int {{\n  {reach}  {call}\n  {after}  1\n}}\ntest calls_target {{\n  target()\n  assert(1 == 1)\n}}\n"
         return src, src.index("target()\n  assert")
